@@ -69,11 +69,21 @@ func c18Gen(r *rand.Rand, tier string) []Case {
 		}
 	}
 	price := func() *big.Int {
-		switch r.Intn(6) {
+		switch r.Intn(7) {
 		case 0:
 			return big.NewInt(0)
 		case 1:
 			return big.NewInt(1_000_000_000)
+		case 2:
+			// machine-word boundaries: sums of two of these cross 2^64 while each still fits
+			b := new(big.Int).Lsh(big.NewInt(1), uint(pick(r, []int{31, 32, 63, 64, 64, 128})))
+			switch r.Intn(3) {
+			case 0:
+				b.Sub(b, big.NewInt(1))
+			case 1:
+				b.Sub(b, big.NewInt(int64(r.Intn(1000))))
+			}
+			return b
 		default:
 			return new(big.Int).Rand(r, new(big.Int).Lsh(big.NewInt(1), uint(1+r.Intn(100))))
 		}
